@@ -187,6 +187,36 @@ def access(ctx):
                 prev, a = a, getattr(a, '_parent', None)
             R.check(handled, rule, f'{SRV}.{name} | refusal handled in the task #{gi + 1}', 'the gate call is inside try/except ATT_Error of the task-wrapped handler',
                     'a refusal raised by the permission gate escapes the task-wrapped handler: the request is never answered (the client times out instead of receiving the error or a non-match)', p.loc(c))
+    # requests that either succeed completely or fail with the error of the refused attribute
+    ALWAYS_ERROR = {'on_att_read_request', 'on_att_read_blob_request', 'on_att_read_multiple_request', 'on_att_read_multiple_variable_request', 'on_att_write_request'}
+    for name in sorted(ALWAYS_ERROR & set(srv.methods)):
+        m = srv.methods[name]
+        for hi, h in enumerate([x for x in ast.walk(m) if isinstance(x, ast.ExceptHandler) and x.type is not None and 'ATT_Error' in text(x.type)]):
+
+            class D(paths.Domain):
+                def event(self, node, v):
+                    if isinstance(node, ast.Call) and call_attr(node) == 'ATT_Error_Response':
+                        return (min(v + 1, 2),)
+                    return (v,)
+
+                def ret(self, node, v):
+                    return 'left'
+            in_loop = False
+            a_ = getattr(h, '_parent', None)
+            while a_ is not None and a_ is not m:
+                if isinstance(a_, (ast.For, ast.AsyncFor, ast.While)):
+                    in_loop = True
+                a_ = getattr(a_, '_parent', None)
+            res = paths.run_block(h.body, D(), 0)
+            bad = []
+            for k, st in res.items():
+                for v, w in st.items():
+                    if k.startswith('raise'):
+                        continue
+                    if v != 1 or (in_loop and k != 'ret:left'):
+                        bad.append(f'{k} with {v} error response(s) ({" ".join(w)})')
+            R.check(not bad, rule, f'{SRV}.{name} | refusal always answered with the error #{hi + 1}', 'every path of the refusal handler produces exactly one Error Response (and, inside a per-attribute loop, leaves the handler)',
+                    'a refusal by the permission gate can be turned into a success response carrying what was collected so far (or into no response): the client is not told that an attribute of its request was refused', p.loc(h), bad[:2])
     missing = (READERS | WRITERS) - set(srv.methods)
     for mname in sorted(missing):
         R.bad(rule, f'{SRV}.{mname}', f'anchor missing: {SRV}.{mname}')
